@@ -321,8 +321,15 @@ def _op_mrobust(ctx, op, state):
     if gb:
         order = order[::-1]
     core = [t + [i] for i in range(len(m["atoms"])) for t in _core_spec(m["atoms"][i]["z"])]
-    smooth = ctx.spec["dens"]["rho1"] if kind == "core+smooth" else []
+    smooth = ctx.spec["dens"]["rho1"] if kind in ("core+smooth", "core+fit") else []
     spec = core + smooth
+    extra = {}
+    if kind == "core+fit":
+        # second split: the smooth part is fitted per atom with Gaussians whose exponents the caller supplies - here the
+        # exponents that are actually in the density (and one that is not), so the fit recovers it and the numerical
+        # residual is small.  (With the default basis the fit on a molecule is ill-conditioned on the unchanged tree.)
+        extra = {"split2": True, "alphas_basis": sorted({float(t[2]) for t in smooth} | {2.7})}
+        ctx.probes.hit("multi-centre-robust-solve-with-second-split")
     rkey = ("mrobust", kind, gb)
     if rkey not in state["rho"]:
         state["rho"][rkey] = _density(spec, g.points, cen)
@@ -331,7 +338,7 @@ def _op_mrobust(ctx, op, state):
     holder = {}
 
     def call():
-        holder["pot"] = solve_poisson_robust(g, rho, state["tf"], np.array([m["atoms"][i]["z"] for i in order]), cen[order].copy(), ode_params=state["params"], **dict(ctx.spec["grid"].get("opts") or {}))
+        holder["pot"] = solve_poisson_robust(g, rho, state["tf"], np.array([m["atoms"][i]["z"] for i in order]), cen[order].copy(), ode_params=state["params"], **extra, **dict(ctx.spec["grid"].get("opts") or {}))
         return holder["pot"](pts)
 
     oc = _outcome(call)
@@ -807,8 +814,8 @@ class PoissonSeamEngine:
             ops.append(["solve", w, rng.choice(BEHAVIOURS), rng.randrange(1000), {"shared_params": True, "grid_b": rng.random() < 0.3}])
         if rng.random() < 0.6:
             ops.append(["solve", rng.choice(["rho1", "rho2"]), rng.choice(BEHAVIOURS), rng.randrange(1000), {"shared_params": rng.random() < 0.7, "grid_b": rng.random() < 0.5}])
-        for _ in range(rng.choice([0, 1, 1, 2])):
-            ops.insert(rng.randint(0, len(ops)), ["mrobust", rng.choice(["core", "core", "core+smooth"]), rng.choice(BEHAVIOURS), rng.randrange(1000), {"grid_b": rng.random() < 0.3}])
+        for _ in range(rng.choice([0, 1, 1, 2, 2])):
+            ops.insert(rng.randint(0, len(ops)), ["mrobust", rng.choice(["core", "core", "core+smooth", "core+fit", "core+fit"]), rng.choice(BEHAVIOURS), rng.randrange(1000), {"grid_b": rng.random() < 0.3}])
         if rng.random() < 0.3:
             ops.insert(rng.randint(0, len(ops)), ["perturb", rng.randrange(300), rng.choice([None, 3])])
         return {"engine": self.NAME, "seed": seed, "submode": submode, "grid": grid, "mol": mol, "dens": d, "ops": ops}
